@@ -176,10 +176,13 @@ ViewLaws ==
   /\ CsvView(NullV) = [c |-> "empty"]
 
 ASSUME ViewLaws
-RECURSIVE Rows(_)
-Rows(n) == IF n = 0 THEN <<>> ELSE Append(Rows(n - 1), MkRow(n))
-RECURSIVE Batches(_)
-Batches(n) == IF n = 0 THEN <<>> ELSE Append(Batches(n - 1), MkBatch(n))
+(* balanced recursion: the evaluation depth is logarithmic in the number of cases *)
+RECURSIVE RowsFrom(_, _)
+RowsFrom(lo, hi) == IF lo > hi THEN <<>> ELSE IF lo = hi THEN <<MkRow(lo)>> ELSE LET mid == (lo + hi) \div 2 IN RowsFrom(lo, mid) \o RowsFrom(mid + 1, hi)
+Rows(n) == RowsFrom(1, n)
+RECURSIVE BatchesFrom(_, _)
+BatchesFrom(lo, hi) == IF lo > hi THEN <<>> ELSE IF lo = hi THEN <<MkBatch(lo)>> ELSE LET mid == (lo + hi) \div 2 IN BatchesFrom(lo, mid) \o BatchesFrom(mid + 1, hi)
+Batches(n) == BatchesFrom(1, n)
 ASSUME ndJsonSerialize("c25_cases.ndjson", Rows(N))
 ASSUME ndJsonSerialize("c25_batches.ndjson", Batches(N \div 4))
 VARIABLE x
